@@ -24,7 +24,9 @@
 
    The model follows the REPAIRED code (proposed_fixes/C06-1.diff: a_str_exit reserves room for
    the terminator; C06-2.diff: a_str_cat/a_str_cat_ reserve before reading obj so that obj may be
-   ctx itself).  The code as found is kept as [exit_orig] / [cat_self_orig] for the refutations. *)
+   ctx itself; C07-str-1.diff: a failed a_str_catv stores the terminator again).  The code as
+   found is kept as [exit_orig] / [cat_self_orig_uaf] (and coq/C07/StrFaultDefs.v [catv_orig]) for
+   the refutations. *)
 From Coq Require Import NArith ZArith List Bool.
 Import ListNotations.
 Local Open Scope N_scope.
@@ -316,8 +318,23 @@ Definition vsn (dst : option (list N)) (off room : N) (text : list N) : option (
            end
        end.
 
+(* if (ctx->num_ < ctx->mem_) { ctx->ptr_[ctx->num_] = 0; }
+   (failure path of a_str_catv with proposed_fixes/C07-str-1.diff) *)
+Definition reterm (s : str) : option str :=
+  if num s <? mem s then
+    match ptr s with
+    | None => None
+    | Some b => match put (num s) 0 b with
+                | None => None
+                | Some b' => Some (mkStr (Some b') (num s) (mem s))
+                end
+    end
+  else Some s.
+
 (* int a_str_catv(a_str *ctx, char const *fmt, va_list va)                   str.c:229-250
-   [out] = what the formatter produces for (fmt, va); 0 <= |out| < INT_MAX *)
+   [out] = what the formatter produces for (fmt, va); 0 <= |out| < INT_MAX.
+   When the growth is refused the repaired code stores the terminator again (the measuring pass
+   has overwritten it); the code as found is coq/C07/StrFaultDefs.v [catv_orig]. *)
 Definition catv (s : str) (out : list N) (sc : sched) : ares Z :=
   let room := wsub (mem s) (num s) in
   match vsn (ptr s) (num s) room out with
@@ -335,7 +352,10 @@ Definition catv (s : str) (out : list N) (sc : sched) : ares Z :=
               Some (Z.of_N res,
                     mkStr p2 (if 0 <? res then wadd (num s1) res else num s1) (mem s1), sc1, e)
           end
-        else Some (0%Z, s1, sc1, e)
+        else match reterm s1 with
+             | None => None
+             | Some s2 => Some (0%Z, s2, sc1, e)
+             end
       else
         Some (Z.of_N res, mkStr p1 (if 0 <? res then wadd (num s) res else num s) (mem s), sc, [])
   end.
